@@ -71,3 +71,10 @@ Definition qt_ok (c : qt_case) : bool :=
   (if N.eqb (qt_status c) 200
    then qt_body_topic c && match qt_all c with [(1, 1, 1)] => true | _ => false end
    else N.leb 400 (qt_status c) && N.ltb (qt_status c) 500 && match qt_all c with [] => true | _ => false end).
+
+(* C09: a publish whose write transaction fails. Acknowledged or handed to a subscriber implies stored (in the file as a
+   process killed at that instant would find it); a success status means acknowledged; the neighbours are unaffected. *)
+Record fw_case := { fw_status : N; fw_acked : bool; fw_delivered : bool; fw_stored : bool; fw_others_stored : bool }.
+Definition fw_ok (c : fw_case) : bool :=
+  implb (fw_acked c) (fw_stored c) && implb (fw_delivered c) (fw_stored c) &&
+  implb (N.leb 200 (fw_status c) && N.ltb (fw_status c) 300) (fw_stored c) && fw_others_stored c.
